@@ -1,3 +1,8 @@
 from multiprocessing import cpu_count
 
 from mpire.pool import WorkerPool
+
+import os as _os
+if _os.environ.get("MPIRE_VERIF") == "1":  # verification hook, off by default
+    import importlib as _il
+    _il.import_module(_os.environ["MPIRE_VERIF_HOOK"]).install()
